@@ -102,10 +102,12 @@ NOTL = (Fraction(0), Fraction(0))
 
 # ----------------------------------------------------------------------------- generators
 def pick_scale(rng):
+    """a third at 1; most of the rest tiny (an absolute tolerance of 1e-8 .. 1e-12 hidden in the code shows below ~2^-30)"""
     r = rng.random()
-    if r < 0.35: k = 0
-    elif r < 0.80: k = -rng.randint(8, 40)
-    elif r < 0.90: k = -rng.randint(1, 7)
+    if r < 0.33: k = 0
+    elif r < 0.66: k = -rng.randint(30, 40)
+    elif r < 0.80: k = -rng.randint(8, 29)
+    elif r < 0.88: k = -rng.randint(1, 7)
     else: k = rng.randint(1, 40)
     return Fraction(2) ** k
 
@@ -183,11 +185,12 @@ def gen_coord(rng, sc=None, small=False):
 
 SIZES = [Fraction(0), Fraction(0), Fraction(1, 64), Fraction(1, 16), Fraction(1, 4), Fraction(1, 4), Fraction(1, 2), Fraction(3, 4),
          Fraction(1), Fraction(3, 2), Fraction(2), Fraction(3)]
-def gen_shape(rng):
+def gen_shape(rng, inside=False):
     """shape described relative to a target triangle: barycentric position of its reference point; sizes in units of the
     set's scale"""
     kind = rng.choice(["point", "point", "circle", "square", "triangle", "polygon"])
     pos = rng.choice(["inside", "inside", "inside", "edge", "corner", "outside", "outside", "far"])
+    if inside: pos = "inside"
     den = rng.choice([2, 4, 8])
     if pos == "inside":
         a = rng.randint(1, den - 1) if den > 2 else 1; b = rng.randint(0, den - a)
@@ -204,24 +207,28 @@ def gen_shape(rng):
             "dscale": S(rng.choice([Fraction(1, 16), Fraction(1, 4), Fraction(1), Fraction(1)])),
             "seed": rng.randrange(10 ** 9)}
 
-A_STEPS = ["tris", "tris", "area", "up", "up", "nbr", "for", "with", "contain", "contain", "contain", "edit", "edit",
+A_STEPS = ["recontain", "tris", "tris", "area", "up", "up", "nbr", "for", "with", "contain", "contain", "contain", "edit", "edit",
            "move_up", "move_nbr", "move_for", "move_with"]
-C_STEPS = ["tris", "tris", "area", "up", "up", "nbr", "for", "repr", "contain", "contain", "contain",
+C_STEPS = ["recontain", "tris", "tris", "area", "up", "up", "nbr", "for", "repr", "contain", "contain", "contain",
            "move_up", "move_nbr", "move_for", "to_array"]
 def gen_steps(rng, names, n):
-    steps = []
-    for _ in range(n):
-        k = rng.choice(names)
+    ks = [rng.choice(names) for _ in range(n)]
+    # every session asks one object about two different shapes and re-uses a shape on a different set of the same length
+    for must in ("contain", "recontain", "contain"):
+        ks.insert(rng.randint(0, len(ks)), must)
+    steps, nslot = [], 0
+    for k in ks:
         st = {"k": k, "seed": rng.randrange(10 ** 9)}
-        if k == "contain":
-            st["slot"] = rng.randrange(2)
-            st["shape"] = gen_shape(rng)          # used when the slot is still empty
+        if k in ("contain", "recontain"):
+            st["slot"] = nslot % 2 if nslot < 2 else rng.randrange(2)
+            nslot += 1
+            st["shape"] = gen_shape(rng, inside=k == "recontain")          # used when the slot is still empty
         steps.append(st)
     return steps
 
 def gen_inputs(tier, rng):
     big = tier == "thorough"
-    n = 700 if big else 24
+    n = 400 if big else 24
     for i in range(n):
         A = gen_array(rng)
         for op in ("a_tris", "a_up", "a_nbr"):
@@ -248,15 +255,15 @@ def gen_inputs(tier, rng):
         yield dict(L, op="c_limits")
         yield dict(L, op=rng.choice(["al_up", "al_nbr", "al_for", "al_contain"]), seed=rng.randrange(10 ** 9), shape=gen_shape(rng))
     # sessions: one object, several calls (repeats, re-used shapes, in-place edits, the object replaced by its own results)
-    for i in range(500 if big else 26):
+    for i in range(250 if big else 26):
         A = gen_array(rng)
         yield dict(A, op="a_session", steps=gen_steps(rng, A_STEPS, rng.randint(5, 9)))
-    for i in range(500 if big else 26):
+    for i in range(250 if big else 26):
         C = gen_coord(rng, small=rng.random() < 0.5)
         C["pre"] = []
         yield dict(C, op="c_session", steps=gen_steps(rng, C_STEPS, rng.randint(5, 9)))
     # chains of consecutive up_sample() calls following one child (depth 10-16): sides down to 2^-16 of the start
-    for i in range(60 if big else 5):
+    for i in range(30 if big else 5):
         depth = rng.randint(10, 16)
         sc = rng.choice([Fraction(1), Fraction(1), Fraction(1, 2 ** 10), Fraction(2) ** 20])
         A = gen_array(rng, sc=sc)
@@ -684,7 +691,16 @@ def coord_op(C, S0, it, op, arg=None):
         oi, ov = int_rows(C.indices), fr_pts(C.vertices)
         W = C.with_vertices(C.vertices)
         ok = isinstance(W, ArrayTriangles) and bool(np.array_equal(W.triangles, C.triangles))
-        return [f"(KCRepr {pre} {catri(oi, ov)})"], ok, {"indices": oi, "vertices": str(ov)[:300]}, W
+        cases = [f"(KCRepr {pre} {catri(oi, ov)})"]
+        # with_vertices with OTHER vertices: the index rows of the coordinate array applied to the array handed in
+        r = random.Random(len(ov) * 7919 + len(oi))
+        v2 = [[v[0] + S0["side"] * Fraction(r.randint(-8, 8), 4), v[1] - S0["side"] * Fraction(r.randint(-8, 8), 4)] for v in ov]
+        if all(rep(x) for v in v2 for x in v):
+            v2_arr = np.array([[float(v[0]), float(v[1])] for v in v2]).reshape(-1, 2); keep2 = v2_arr.copy()
+            W2 = C.with_vertices(v2_arr)
+            ok = ok and isinstance(W2, ArrayTriangles) and bool(np.array_equal(v2_arr, keep2))
+            cases.append(f"(KAWith {catri(oi, ov)} {clist([cpt(v) for v in v2])} {ctris(fr_tris(W2.triangles))})")
+        return cases, ok, {"indices": oi, "vertices": str(ov)[:300]}, W
     raise ValueError(op)
 
 def coord_contain_case(S0, it, sh):
@@ -751,6 +767,30 @@ def a_steps(se, A, idx, verts, steps, pool, sc_hint):
             sh, P = got
             cases, ok, out = contain_op(A, tris, sh, P, lambda o: f"(KAContain {catri(idx, verts)} {cshape(sh)} {cnats(o)})")
             R = None
+        elif k == "recontain":
+            # the same Shape object on this set and then on a DIFFERENT set of the same length (the selection rotated by one,
+            # or the single triangle translated): the second answer must follow the second set
+            tris = tris_of(idx, verts)
+            got = pool_shape(pool, st, tris, False)
+            if got is None:
+                _skipped["steps_in_band"] += 1; continue
+            sh, P = got
+            cases, ok, out = contain_op(A, tris, sh, P, lambda o: f"(KAContain {catri(idx, verts)} {cshape(sh)} {cnats(o)})")
+            if nt >= 2:
+                B = A.for_indexes(np.array([(i + 1) % nt for i in range(nt)], dtype=int))
+            else:
+                sc = scale_of(tris)
+                v2 = [[v[0] + 3 * sc, v[1] - 2 * sc] for v in verts]
+                if not all(rep(x) for v in v2 for x in v): continue
+                B = A.with_vertices(np.array([[float(v[0]), float(v[1])] for v in v2]).reshape(-1, 2))
+            bi, bv = atri_of(B)
+            try:
+                check_band(sh, tris_of(bi, bv), False)
+                c2, ok2, out2 = contain_op(B, tris_of(bi, bv), sh, P, lambda o: f"(KAContain {catri(bi, bv)} {cshape(sh)} {cnats(o)})")
+                cases += c2; ok = ok and ok2 and len(bi) == nt; out = (out, out2)
+            except Band:
+                _skipped["steps_in_band"] += 1
+            R = None
         elif k == "edit":
             # the user overwrites one row of the vertex array in place, then reads again
             j = r.randrange(len(verts))
@@ -794,6 +834,23 @@ def c_steps(se, C, steps, pool):
                 _skipped["steps_in_band"] += 1; continue
             sh, P = got
             cases, ok, out = contain_op(C, it, sh, P, coord_contain_case(S0, it, sh))
+            R = None
+        elif k == "recontain":
+            got = pool_shape(pool, st, it, True)
+            if got is None:
+                _skipped["steps_in_band"] += 1; continue
+            sh, P = got
+            cases, ok, out = contain_op(C, it, sh, P, coord_contain_case(S0, it, sh))
+            if nc >= 2: B = C.for_indexes(np.array([(i + 1) % nc for i in range(nc)], dtype=int))
+            else:
+                N = C.neighborhood(); B = N.for_indexes(np.array([r.randrange(len(cs_of(N)["coords"]))], dtype=int))
+            Sb = cs_of(B); bt = fr_tris(B.triangles)
+            try:
+                check_band(sh, bt, True)
+                c2, ok2, out2 = contain_op(B, bt, sh, P, coord_contain_case(Sb, bt, sh))
+                cases += c2; ok = ok and ok2 and len(Sb["coords"]) == nc; out = (out, out2)
+            except Band:
+                _skipped["steps_in_band"] += 1
             R = None
         elif k == "to_array":
             # the coordinate array becomes an ArrayTriangles (with_vertices(vertices)); the session goes on with that object
